@@ -149,4 +149,40 @@ theorem zrunOps_snoc (cap : Nat) (z : Zip) (ops : List SOp) (o : SOp) :
     z.runOps cap (ops ++ [o]) = ((z.runOps cap ops).apply cap o).1 := by
   unfold Zip.runOps; rw [List.foldl_append]; rfl
 
+/-! ### ring offsets at the C width -/
+
+theorem histOffC_eq (rl : Readline) (num : Nat) (h1 : 1 ≤ rl.hsize) (hh : rl.headhist < rl.hsize) (hn : num ≤ rl.hsize)
+    (hs : rl.hsize ≤ 2147483647) (hc : rl.line.cap < 4294967296) (hfit : rl.hsize * rl.line.cap ≤ 4294967296) :
+    rl.histOffC num = rl.histOff num ∧ rl.pushOffC = rl.headhist * rl.line.cap ∧
+    rl.clearedC % 4294967296 = (rl.line.cap * rl.hsize) % 4294967296 := by
+  have e1 := u32_toNat rl.headhist (by omega)
+  have e2 := u32_toNat rl.hsize (by omega)
+  have e3 := u32_toNat num (by omega)
+  have e4 := u32_toNat rl.line.cap hc
+  have hsum : (Sline.u32 rl.headhist + Sline.u32 rl.hsize).toNat = rl.headhist + rl.hsize := by
+    rw [BitVec.toNat_add, e1, e2]; exact Nat.mod_eq_of_lt (by omega)
+  have hdiff : (Sline.u32 rl.headhist + Sline.u32 rl.hsize - Sline.u32 num).toNat = rl.headhist + rl.hsize - num := by
+    rw [bv32_sub_toNat _ _ (by rw [hsum, e3]; omega), hsum, e3]
+  have hidx : ((Sline.u32 rl.headhist + Sline.u32 rl.hsize - Sline.u32 num) % Sline.u32 rl.hsize).toNat =
+      (rl.headhist + rl.hsize - num) % rl.hsize := by
+    rw [BitVec.toNat_umod, hdiff, e2]
+  have hlt : (rl.headhist + rl.hsize - num) % rl.hsize < rl.hsize := Nat.mod_lt _ (by omega)
+  have hmul : ∀ i, i < rl.hsize → i * rl.line.cap < 4294967296 := by
+    intro i hi
+    have : i * rl.line.cap ≤ (rl.hsize - 1) * rl.line.cap := Nat.mul_le_mul_right _ (by omega)
+    have h2 : (rl.hsize - 1) * rl.line.cap + rl.line.cap = rl.hsize * rl.line.cap := by
+      rw [← Nat.succ_mul]; congr 1; omega
+    by_cases hz : rl.line.cap = 0
+    · rw [hz]; simp
+    · omega
+  refine ⟨?_, ?_, ?_⟩
+  · unfold Readline.histOffC Readline.histOff
+    rw [BitVec.toNat_mul, hidx, e4]
+    exact Nat.mod_eq_of_lt (hmul _ hlt)
+  · unfold Readline.pushOffC
+    rw [BitVec.toNat_mul, e1, e4]
+    exact Nat.mod_eq_of_lt (hmul _ hh)
+  · unfold Readline.clearedC
+    rw [BitVec.toNat_mul, e4, e2, Nat.mod_mod]
+
 end Igris.C15
